@@ -627,10 +627,18 @@ pub fn run(ctx: &Ctx) -> (Report, PropertyMeta) {
                 identity: id.map(|i| refcodec::hex(&i)),
             });
         }
+        // every identity length: the READY body crosses the 255/256 boundary somewhere in
+        // 215..=223 depending on the length of the socket type's name
+        for len in 1..=255usize {
+            rc.push(ReadyCase {
+                kind: k,
+                identity: Some(refcodec::hex(&fill(len as u32, len))),
+            });
+        }
     }
     let r = run_cases(ctx, "ready", &rc, ready_outcome);
     report.sections.push(json!({"part": "c: greeting+READY captured from real sockets", "cases": rc.len()}));
-    report.exhaustive_parts.push(format!("9 socket types x {} identity options", identity_options().len()));
+    report.exhaustive_parts.push(format!("9 socket types x ({} identity options + every identity length 1..=255)", identity_options().len()));
     report.merge(r);
 
     // bare encoder: READY with arbitrary properties, greeting variants
@@ -686,6 +694,9 @@ pub fn run(ctx: &Ctx) -> (Report, PropertyMeta) {
     let r = run_cases(ctx, "socket_send", &sc, sock_send_outcome);
     report.merge(r);
 
+    if t == Tier::Thorough {
+        crate::fuzzing::campaign(ctx, &mut report, "wire", 240);
+    }
     let total = report.evaluations;
     health(&mut report, "has-long-frame", total, 100);
     health(&mut report, "has-empty-frame", total, 50);
